@@ -161,15 +161,15 @@ def isRetry : Res (Option Solution) → Bool
 theorem passPure_events (w : World) (p : Problem) (o : Opts) (pass : Nat) (m : String) (warn : List Event)
     (hv : p.vars.isEmpty = false) (hg : guardPure "SciPy" o.strict p.vars = (none, warn)) :
     (passPure w p o pass m).2 =
-      warn ++ [.minimizeCall (minArgs p m (hessFlag o m))] ++ (if isRetry (passPure w p o pass m).1 then [.warnRetry] else []) := by
+      warn ++ [.minimizeCall (minArgs p o m (hessFlag o m))] ++ (if isRetry (passPure w p o pass m).1 then [.warnRetry] else []) := by
   unfold passPure
   simp only [hv, Bool.false_eq_true, ↓reduceIte, hg]
   cases postPass (p.cfg o) m (if (pass == 0) = true then w.r1 else w.r2) <;> simp [isRetry]
 
 theorem scipyPure_events (w : World) (p : Problem) (o : Opts) (m : String) (warn : List Event)
     (hv : p.vars.isEmpty = false) (hg : guardPure "SciPy" o.strict p.vars = (none, warn)) :
-    let a1 := Event.minimizeCall (minArgs p m (hessFlag o m))
-    let a2 := Event.minimizeCall (minArgs p "trust-constr" (hessFlag o "trust-constr"))
+    let a1 := Event.minimizeCall (minArgs p o m (hessFlag o m))
+    let a2 := Event.minimizeCall (minArgs p o "trust-constr" (hessFlag o "trust-constr"))
     (scipyPure w p o m).2 = warn ++ [a1]
     ∨ (scipyPure w p o m).2 = warn ++ [a1] ++ [.warnRetry] ++ (warn ++ [a2])
     ∨ (scipyPure w p o m).2 = warn ++ [a1] ++ [.warnRetry] ++ (warn ++ [a2] ++ [.warnRetry]) := by
@@ -225,7 +225,7 @@ theorem relax_cfg (p : Problem) (o : Opts) : p.relax.cfg o = p.cfg o := by
 theorem relax_bnds (p : Problem) : p.relax.vars.map PVar.bnd = p.vars.map PVar.bnd := by
   simp [Problem.relax, PVar.bnd, Function.comp_def]
 
-theorem relax_minArgs (p : Problem) (m : String) (h : Bool) : minArgs p.relax m h = minArgs p m h := by
+theorem relax_minArgs (p : Problem) (o : Opts) (m : String) (h : Bool) : minArgs p.relax o m h = minArgs p o m h := by
   unfold minArgs
   rw [relax_bnds, relax_isEmpty]
   rfl
